@@ -180,9 +180,6 @@ def causes(v):
             if not uaconv.isna(lt.text) and lt.text != lt.text.strip(): pass
         text_causes(e.namespace_uri, True)
         if e.namespace_uri.strip() == "": c.add("eu-empty-uri")
-    elif isinstance(v, T.UAEURange):
-        for x in (v.ua_range.low, v.ua_range.high):
-            if x != x: c.add("range-nan")
     elif isinstance(v, T.UAExtensionObject):
         t = v.type_nodeid
         if t.namespace == 0 and t.nodeid_type.value == "i" and t.value in ("885", "888"): c.add("ext-reserved-typeid")
